@@ -400,10 +400,18 @@ def rule_tomb_escape_point(ctx):
                                 # the comparison is the usual "not found" spelling; other spellings stay undecided
                                 if lab is True and tt[0] == 'op' and tt[1] == '==' and nm == 'find':
                                     shadow = True
+                                elif nm == 'binary_search' and not _sorted_collection(f, s_, colls):
+                                    # a binary search needs a sorted range; appends made from different iterations of the level loop
+                                    # are not in key order and nothing sorts the collection before it is searched
+                                    obs.append(Ob('TOMB-ESCAPE', f, c, 'an iterator to an item is handed out only on a path on which the item was found not deleted (and not shadowed by a newer tombstone)',
+                                                  why + '; the keys erased in newer levels are looked up by binary search in a sequence that is appended to across levels and never sorted', VIOLATED, arm=name))
+                                    shadow = 'reported'
                                 elif nm in ('count', 'contains', 'binary_search', 'any_of') and ((lab is True and ((tt[0] == 'op' and tt[1] == '==' and strip_cast(tt[3]) == ('lit', 0)) or (tt[0] == 'un' and tt[1] == '!'))) or (lab is False and tt[0] == 'call')):
                                     shadow = True
                                 elif nm == 'none_of' and lab is True:
                                     shadow = True
+                    if shadow == 'reported':
+                        continue
                     if not shadow:
                         ok = False
                         extra = '; but the key is not checked against the keys erased in newer levels' if not mention else '; the test against the keys erased in newer levels has an unrecognised shape'
@@ -414,6 +422,21 @@ def rule_tomb_escape_point(ctx):
                 obs.append(Ob('TOMB-ESCAPE', f, c, 'an iterator to an item is handed out only on a path on which the item was found not deleted (and not shadowed by a newer tombstone)',
                               why + extra, OK if ok else VIOLATED, arm=name))
     return obs
+
+
+def _sorted_collection(f, call_term, colls):
+    """is the range searched by std::binary_search known to be sorted?  An ordered container is; a sequence container is
+    only if a std::sort over it precedes the search (not looked for: no such code exists) - appended to inside nested loops
+    (a per-level loop around a scan) it is not."""
+    for a in call_term[2]:
+        for x in subterms(a):
+            if x[0] == 'call' and len(x) > 3 and x[3] is not None and strip_cast(x[3])[0] == 'local':
+                d = f.defs.get(strip_cast(x[3])[2], {})
+                ty = f.unit.tstr(d.get('t', 0)) if d else ''
+                if 'std::set' in ty or 'std::multiset' in ty or 'std::map' in ty:
+                    return True
+                return False
+    return False
 
 
 def rule_tomb_escape_scan(ctx):
